@@ -421,7 +421,7 @@ func decmsgWith(w, t *typeOps, pred func()) {
 	msg := refEncodeStruct(w.St, rv, nil)
 	encOrder = 0
 	trail := 0
-	if pred == nil {
+	if pred == nil && vrt.ParamOr("plain", 0) == 0 {
 		trail = vrt.Choice("trail", 2) * 2
 	}
 	vrt.SetOwner("buf")
@@ -432,7 +432,7 @@ func decmsgWith(w, t *typeOps, pred func()) {
 	vrt.SetOwner("user")
 	pw := t.New()
 	prefilled := false
-	if pred == nil && vrt.Choice("prefill", 2) == 1 {
+	if pred == nil && vrt.ParamOr("plain", 0) == 0 && vrt.Choice("prefill", 2) == 1 {
 		prefilled = true
 		// every field pre-set: pointers non-nil, containers with one element, symbolic contents
 		fixedShape = 2
